@@ -72,6 +72,23 @@ pub fn canon_for(name: &str, reply: Option<&[u8]>, tcp: bool) -> String {
         // record mark (length depends on the address string) masked; header through accept_stat
         let b = if (tcp || name.contains("marked")) && m.len() >= 4 { &m[4..] } else { &m[..] };
         let keep = b.len().min(24);
+        if name.contains("dump2") && b.len() >= 24 {
+            // portmap version 2 DUMP: (more, prog, vers, prot, port)*: only the port is an endpoint field
+            let mut out = format!("rpc:{}", hex(&b[..24]));
+            let mut i = 24;
+            while i + 4 <= b.len() {
+                let more = u32::from_be_bytes([b[i], b[i + 1], b[i + 2], b[i + 3]]);
+                out.push_str(&format!("|{}", more));
+                i += 4;
+                if more != 1 || i + 16 > b.len() {
+                    break;
+                }
+                out.push_str(&format!(":{}", hex(&b[i..i + 12])));
+                i += 16;
+            }
+            out.push_str(&format!("|rest={}", hex(&b[i.min(b.len())..])));
+            return out;
+        }
         return format!("rpc:{}", hex(&b[..keep]));
     } else if name.starts_with("dns") {
         // header + questions verbatim; per answer: owner/type/class/ttl, RDLENGTH + RDATA masked
@@ -124,7 +141,7 @@ pub fn run(rep: &mut Report, thorough: bool) {
     rep.assumptions = vec!["2^32 port pairs per payload are not enumerated: two full one-dimensional sweeps plus two byte grids per payload, transport and IP version".into()];
     let cfg = cfg_plain();
     let pls = payloads();
-    let quick_set = ["http-get", "ssh-2", "ghost", "stun-classic-change-port", "smb2-negotiate", "rpc-udp-getaddr", "dns-a", "garbage", "http-incomplete", "dns-txt-ch", "stun-magic-attrs", "stun-classic-dns-polyglot", "stun-change-dns-polyglot", "rpc-tcp-dump", "rpc-udp-dump", "rpc-tcp-getaddr", "rpc-marked-dump-in-datagram"];
+    let quick_set = ["http-get", "ssh-2", "ghost", "stun-classic-change-port", "smb2-negotiate", "rpc-udp-getaddr", "dns-a", "garbage", "http-incomplete", "dns-txt-ch", "stun-magic-attrs", "stun-classic-dns-polyglot", "stun-change-dns-polyglot", "rpc-tcp-dump", "rpc-udp-dump", "rpc-tcp-getaddr", "rpc-marked-dump-in-datagram", "rpc-udp-dump2", "rpc-tcp-dump2", "rpc-udp-getport"];
     let sel: Vec<&Payload> = pls.iter().filter(|p| thorough || quick_set.contains(&p.name)).collect();
     // reference runs
     let ref_flow = flow4(40000, 80);
